@@ -358,6 +358,11 @@ def _run_stoch(case, obs):
         else:
             a = rng.uniform(0, 24)
             d = rng.uniform(0.05, 40)
+        if not mats and rng.random() < 0.06:
+            # a sample that falls before the simulation start (a generator with a negative lower clip): a hair, a fraction of a
+            # period, several periods before hour 0 of the first day
+            a = -rng.choice([1e-9, period / 60.0 * rng.choice([0.01, 0.5, 0.99]), period / 60.0 * rng.choice([1.5, 3]), rng.uniform(0, 2)])
+            obs.ev("samples_before_the_simulation_start")
         e = rng.choice([rng.uniform(0.5, 5), rng.uniform(0.5, 60), rng.uniform(0.5, 150)])
         return [a, d, e]
 
@@ -407,13 +412,17 @@ def _run_stoch(case, obs):
         events.append(q.get_event())
     evs = {e.ev.session_id: e.ev for e in events}
     rows = _stoch_rows(mats, spd)
-    if len(evs) != len(rows):
-        obs.violate("stoch_count", f"{len(evs)} EVs for {len(rows)} samples", config=cfg)
+    n_pre = sum(1 for r_ in rows if r_[0] < 0)
+    if not (len(rows) - n_pre <= len(evs) <= len(rows)):
+        obs.violate("stoch_count", f"{len(evs)} EVs for {len(rows)} samples ({n_pre} of them before the simulation start)", config=cfg)
         return
     pph = F(60) / F(period)
     interesting = False
     for idx, (a, dur, en) in enumerate(rows):
         ev = evs.get(f"session_{idx}")
+        if ev is None and a < 0:
+            obs.ev("samples_before_the_start_refused")  # nothing may start before period 0: dropping the sample is the library's answer;
+            continue                                    # an EV made of it is judged like any other (period index = floor, i.e. negative)
         if ev is None:
             obs.violate("stoch_ids", f"no EV named session_{idx}", config=cfg)
             continue
@@ -500,13 +509,13 @@ def _run_gmm(case, obs):
 
 
 # ------------------------------------------------------------------ capacity fit
-def _fit_one(obs, energy, stay, V, period, tag=""):
+def _fit_one(obs, energy, stay, V, period, tag="", stay_type=None):
     from acnportal.acnsim.models import Linear2StageBattery
     from acnportal.acnsim.models.battery import batt_cap_fn
     fe = _fit_feasible(energy, stay, V, period)
     wit = dict(energy=energy, stay=stay, voltage=V, period=period)
     try:
-        cap, init = batt_cap_fn(energy, stay, V, period)
+        cap, init = batt_cap_fn(energy, stay if stay_type is None else stay_type(stay), V, period)
     except ValueError as e:
         if "No feasible battery size" not in str(e):
             raise
@@ -541,7 +550,11 @@ def _run_fit(case, obs):
         energy = min(maxE * frac, 100.0)
         if energy <= 0:
             continue
-        _fit_one(obs, energy, stay, V, period)
+        # the stay as the caller has it: a python int, or an element of a numpy table (signed or unsigned, narrow or wide)
+        st_ = rng.choice([None, None, np.int64, np.int32, np.uint16, np.uint32, np.uint64, np.int16, np.uint8 if stay < 256 else np.uint16])
+        if st_ is not None:
+            obs.ev("fits_with_the_stay_as_a_numpy_integer")
+        _fit_one(obs, energy, stay, V, period, stay_type=st_)
     obs.evals = case["n"]
     obs.nontrivial()
     obs.sample = {"kind": "fit", "n": case["n"]}
